@@ -437,6 +437,14 @@ type invariant struct {
 // bounds (candidates are proved like declared ones, never assumed).
 func (f *Frame) loopInvariants(li *loopInfo, spec *LoopSpec, phis []*ssa.Phi) []invariant {
 	var out []invariant
+	if f.block != nil {
+		for _, cl := range f.block.LoopInvAll {
+			cl := cl
+			out = append(out, invariant{name: fmt.Sprintf("all%d", cl.Index), text: cl.Text, clause: cl, eval: func(f *Frame, st *State, phis []*ssa.Phi, next map[*ssa.Phi][]Term) Term {
+				return f.ctx.evalSpecFn(cl.Fn, f.argVals[:1], st, f.entryHeap(), f)[0]
+			}})
+		}
+	}
 	if spec != nil {
 		for _, cl := range spec.Inv {
 			cl := cl
